@@ -110,7 +110,12 @@ def replay(ctx, cases, prefixes):
         if rr["ok"]:
             stats["complete"] += 1
             continue
-        sig = rr["sig"]
+        sig, det = rr["sig"], rr["detail"]
+        for o in rr.get("also") or []:
+            # the step left several queues different from the specification: take the mismatch that belongs to this property
+            if not any(sig.startswith(p) for p in prefixes) and any(o["sig"].startswith(p) for p in prefixes):
+                sig, det = o["sig"], o["detail"]
+        rr["detail"] = det
         if any(sig.startswith(p) for p in prefixes):
             ctx.fail(sig, rr["detail"], vlib.replay_payload("op", ["replay", "-in", "{in}", "-out", "{out}", "-hookbin", "{hookbin}"], c, human={"config": c["config"], "actions": [s["act"] for s in c["steps"][1:rr.get("bad_step", 0) + 1]]}))
         else:
@@ -119,14 +124,14 @@ def replay(ctx, cases, prefixes):
     return stats
 
 
-def run(ctx, prefixes, what):
+def run(ctx, prefixes, what, configs=None):
     mod, cfgs = gen_module(ctx)
     asis_env = bool(os.environ.get("VERIF_OP_ASIS"))
     quick = [("A", 2, 1, 1), ("B", 2, 0, 2)] if ctx.quick() else [("A", 2, 1, 2), ("B", 3, 0, 2), ("D", 2, 1, 1)]
     model_checks(ctx, mod, quick, [("A", "NoSyncForDisabled", "TRUE", "FALSE"), ("B", "NeverDiscardStrict", "FALSE", "TRUE")])
     cases = []
     per = ctx.pick(40, 400)
-    for cfg in sorted(cfgs):
+    for cfg in sorted(configs or cfgs):
         for b in gen(ctx, mod, cfg, per, ctx.pick(45, 70), asis=asis_env):
             cases.append({"config": cfg, "hooks": cfgs[cfg], "steps": b})
     stats = replay(ctx, cases, prefixes)
@@ -136,7 +141,7 @@ def run(ctx, prefixes, what):
     ctx.cov["evaluations"] = len(cases)
     ctx.cov["distinct_nontrivial"] = len({c["config"] + json.dumps([s["act"] for s in c["steps"]]) for c in cases})
     ctx.cov["replay"] = stats
-    ctx.cov["configurations"] = sorted(cfgs)
+    ctx.cov["configurations"] = sorted(configs or cfgs)
     ctx.sample({"config": cases[0]["config"], "actions": [s["act"] for s in cases[0]["steps"][1:30]]})
     ctx.assumptions += ["hook processes are the hookbin helper (blocks until released, exit code scripted); objects are ConfigMaps on kube-client's fake cluster",
                         "queue workers are parked at gate hooks between their steps; gating only adds delay"]
@@ -214,7 +219,7 @@ def check_c03(ctx):
                 ctx.notes.append("DIVERGENCE %s: %s" % (o["sig"], o["detail"][:200]))
     ctx.log("queue level: %d behaviours (%d picks) replayed on the real queue, executed task = head of the list" % (len(behs), picks))
     ctx.cov["queue_level_behaviours"] = len(behs)
-    run(ctx, ("C03/",), "placement, head-first, one execution per queue")
+    run(ctx, ("C03/",), "placement, head-first, one execution per queue", configs=["A", "B", "D", "G", "H"])
 
 
 def backoff_bounds(ctx):
@@ -241,11 +246,11 @@ def backoff_bounds(ctx):
 
 def check_c04(ctx):
     backoff_bounds(ctx)
-    run(ctx, ("C04/",), "retry, back-off, allowFailure, discarded contexts")
+    run(ctx, ("C04/",), "retry, back-off, allowFailure, discarded contexts", configs=["A", "B", "C", "F", "G"])
 
 
 def check_c06(ctx):
-    run(ctx, ("C06/",), "bootstrap order, Synchronization delivery")
+    run(ctx, ("C06/",), "bootstrap order, Synchronization delivery", configs=["A", "B", "C", "E", "G", "H"])
 
 
 def check_c07(ctx):
